@@ -1385,6 +1385,7 @@ func main() {
 	c.Rule += " Part E: a bound claim (Background / Foreground, both syncers) is deleted; every API call of the claim controller's next reconcile fails once with each of 6 non-crash outcomes (incl. kind not served, 503), then fault-free settling; same monitors. Part F: XRD deletion while a claim is paused. Part C: XRD teardown against the REAL ControllerEngine over fake informers whose RemoveEventHandler fails once or twice; Stop marks are ground truth (context cancelled, no handler registered). Part D: the real usage reconciler on a composed Usage (composite label, spec.by) with user deletions of the Usage and the using resource (fore/background), a provider finalizer, a lingering dependent and single GC steps in fixed and seeded orders; monitor: the usage controller removes the Usage finalizer only when the using resource is gone."
 	c.Rule += " " + "Lock entries in the forms older versions wrote (type only, apiVersion+kind, Function as v1beta1)."
 	c.Rule += " " + "(1b) the deleted revision's controller reads the Lock through a cache that is behind another writer for 1-3 reconciles."
+	c.Rule += " " + "Part G: referenceable version bump, then claim deletion. Part H: Crossplane restarts during an XRD teardown held up by a third-party finalizer."
 	c.Assumptions = []string{"a stopped controller reconciles nothing; a running one reconciles every instance when scheduled", "part C: fake informers stand in for client-go shared informers (handler registrations, RemoveEventHandler errors); part D: the Usage is composed by label only, no XR reconciler runs"}
 	c.Floor = 100
 	n := c.N(400, 8000)
